@@ -8,3 +8,4 @@ pub mod gen;
 pub mod keys;
 pub mod layouts;
 pub mod par;
+pub mod layoutdoc;
